@@ -607,6 +607,21 @@ NTS = [2, 3, 4, 1, 5, 8, 16, 7, 13]
 
 def execute(ctx: RunCtx) -> None:
     ds, log = ctx.ds, ctx.log
+    if ds.flag("prior_call_in_same_run", 0.25):
+        # call history: another operation (other degrees / dtype / thread count) first, on the compiled and on the simulated
+        # path -- a buffer or table kept between calls would make the checked call below depend on it
+        prior = Case(ds)
+        log.add("prior", prior.desc)
+        ctx.probe("prior_call")
+        try:
+            prior.check(prior.run(_compiled), f"C06/value-{prior.op}", f"compiled {prior.entry()} on {prior.desc}")
+            if SIM.has(_compiled(prior.entry())) and prior.sim_cost() <= SIM_MAX_PAIR:
+                SIM.begin_run(ds, ds.pick(NTS, "prior.nT"), "static", "serial", 1)
+                prior.run(_simulated)
+        except Violation:
+            raise
+        except Exception as e:
+            raise Violation(f"C06/value-{prior.op}-raised", f"{prior.entry()} raised {type(e).__name__}: {e}")
     case = Case(ds)
     ind = case.digest_inputs()
     log.add("case", case.desc, ind)
